@@ -197,7 +197,7 @@ def gen_python(rng, bad_p=0.1):
     return src
 
 
-ENDINGS = ['full', 'full', 'full', 'full', 'abandon', 'close', 'throw', 'parse']
+ENDINGS = ['full', 'full', 'full', 'full', 'abandon', 'hold', 'close', 'throw', 'parse']
 
 
 class C18(Check):
@@ -208,7 +208,7 @@ class C18(Check):
     CHUNK = 100
     RULE = ('one evaluation = one simulated history of 2-10 streams through ONE Indenter object (driven directly on synthetic token lists, '
             'through Lark(postlex=...) on generated indented-tree texts with the contextual or basic lexer, or through PythonIndenter + '
-            'python.lark on generated Python source), each stream ending fully consumed / abandoned after k tokens / closed / thrown into / '
+            'python.lark on generated Python source), each stream ending fully consumed / abandoned after k tokens (dropped, or kept referenced while later streams run) / closed / thrown into / '
             'with DedentError / with a parser or lexer error mid-stream / inside open brackets or levels; every stream is compared token by '
             'token (type, value, borrowed position) with the indentation model for that stream alone, INDENT/DEDENT balance is checked for '
             'every completed stream, and Python streams are compared with CPython tokenize (nesting depth at every NAME/NUMBER, '
@@ -302,7 +302,7 @@ class C18(Check):
             names = dict(nl='_NEWLINE', ind='_INDENT', ded='_DEDENT', opens=tuple(PythonIndenter.OPEN_PAREN_types), closes=tuple(PythonIndenter.CLOSE_PAREN_types))
         abnormal_before = False
         nontrivial = False
-        pending_late = None
+        held = []
 
         def fail(kind, si, **kw):
             out.violation = Violation(kind, stream=si, driver=driver, **kw)
@@ -395,6 +395,8 @@ class C18(Check):
                         gen.throw(KeyboardInterrupt())
                     except (KeyboardInterrupt, StopIteration):
                         pass
+                elif end == 'hold':
+                    held.append(gen)             # abandoned half-way but still referenced while the following streams run
                 else:
                     del gen                      # dropped
             out.count('ending:%s/%s' % (end, 'cut' if truncated else outcome))
